@@ -711,6 +711,288 @@ SYSTEMS = {n: Twins(DRIVERS[n]) for n in CONCEPT + UNUSED_Y + UNUSED_Y_EXTRA}
 
 
 # ----------------------------------------------------------------------------
+# family cross (round 5): TWO detector objects of (possibly) DIFFERENT classes alive in one process, each fed its OWN
+# encoding of the labels.  All label-reading detectors share the base-class validation (menelaus/detector.py), so state
+# kept outside the objects there (a module-level memo keyed by ==/hash: 1 == 1.0 == True == np.int64(1)) lets the encoding
+# one object was fed decide what ANOTHER object (of another class) receives.  One *execution* = pristine process state
+# (mc.procstate.reset() + every module-level functools cache of menelaus cleared), then for every cell history of the campaign a fresh object A (class cA, encoding eA) and a fresh
+# object B (class cB, encoding eB) are fed the history (schedule seq: A completely, then B is built and fed; alt: both
+# built, A and B alternately at every position); after every update each object must equal — bit-for-bit, all public
+# observables, no exception — the canonical 0/1 run of ITS class on the same history made solo in a pristine process
+# state.  Enumerated: every ordered pair of (class, encoding) x both schedules; the campaign of one execution is every
+# 4^n cell history in lexicographic order followed by long histories (several epochs), so the process-level state is
+# also carried from one pair of objects to the next pair of the same two kinds.
+# ----------------------------------------------------------------------------
+_V_TYPES = {
+    "v_int": int, "v_bool": bool, "v_float": float, "v_i64": np.int64, "v_i8": np.int8, "v_u8": np.uint8,
+    "v_f16": np.float16, "v_f32": np.float32, "v_f64": np.float64, "v_npbool": np.bool_, "v_str": str, "v_npstr": lambda v: np.str_(str(v)),
+}
+
+
+def _make_v_enc(ty):
+    # value-preserving: the cell (t, p) itself, both labels converted to ONE type (0 / 1, 0.0 / 1.0, False / True, "0" / "1")
+    def enc(t, p, pos):
+        return ty(t), ty(p)
+
+    return enc
+
+
+V_ENC = {k: _make_v_enc(ty) for k, ty in _V_TYPES.items()}
+
+
+def _cross_encodings(cls):
+    """names of the encodings an object of this class is fed in the family cross"""
+    if cls == "LinearFourRates":
+        return ["l_int"] + ["l_" + e for e in LFR_ENC]
+    return list(V_ENC) + list(ENC)
+
+
+def _cross_labels(cls, enc, cell, pos):
+    t, p = divmod(cell, 2)
+    if cls == "LinearFourRates":
+        if enc == "l_int":
+            return t, p
+        return LFR_ENC[enc[2:]](t, p, pos)
+    if enc in V_ENC:
+        return V_ENC[enc](t, p, pos)
+    return ENC[enc](int(t != p), pos)
+
+
+def _cross_symbol(cls, cell):
+    """the registry symbol of the canonical run: LFR the cell, the error-based detectors the outcome (1 = disagree)"""
+    if cls == "LinearFourRates":
+        return cell
+    t, p = divmod(cell, 2)
+    return int(t != p)
+
+
+# LinearFourRates in this family: Monte-Carlo bounds from the 2nd sample on, few simulations (the family runs ~10^5 updates)
+CROSS_LFR_PARAMS = {"time_decay_factor": 0.6, "warning_level": 0.2, "detect_level": 0.05, "burn_in": 1, "num_mc": 3, "subsample": 1}
+CROSS_DEPTH = {"quick": 1, "thorough": 2}
+# long cell histories closing the campaign (error-based detectors: several drifts with parameter set 0)
+CROSS_LONG = {
+    "quick": {"err": [[3, 3, 1, 2, 0, 1, 3, 2]], "lfr": [[3, 0, 1, 2, 2]]},
+    "thorough": {"err": [[3, 3, 3, 1, 2, 1, 0, 0, 2, 1, 3, 2], [0, 2, 1, 1, 3, 0, 2, 2, 1, 3, 3, 3, 1, 2]], "lfr": [[3, 0, 1, 2, 2, 1], [1, 1, 2, 3, 0, 0, 3, 2]]},
+}
+CROSS_SCHED = ("seq", "alt")
+
+
+def _cross_params(cls, tier):
+    if cls == "LinearFourRates":
+        return CROSS_LFR_PARAMS
+    return list(DRIVERS[cls].configs(tier))[0]
+
+
+def _cross_campaign(cA, cB, tier):
+    lfr = "LinearFourRates" in (cA, cB)
+    hs = [list(h) for h in itertools.product((0, 1, 2, 3), repeat=CROSS_DEPTH[tier])]
+    return hs + [list(h) for h in CROSS_LONG[tier]["lfr" if lfr else "err"]]
+
+
+def _pristine():
+    """pristine process state: mc.procstate.reset() plus every functools cache bound at module level or as a class attribute
+    in a menelaus module (procstate clears the caches it finds on classes; a module-level ``@lru_cache`` function is not a
+    plain function object and is not seen there, so it is cleared here)."""
+    import sys
+    from mc import procstate
+
+    procstate.reset()
+    for name, mod in list(sys.modules.items()):
+        if mod is None or not (name == "menelaus" or name.startswith("menelaus.")):
+            continue
+        for v in list(vars(mod).values()):
+            objs = [v]
+            if isinstance(v, type) and getattr(v, "__module__", None) == name:
+                objs += [getattr(a, "__func__", a) for a in vars(v).values()]
+            for o in objs:
+                cc = getattr(o, "cache_clear", None)
+                if cc is not None and not isinstance(o, type):
+                    try:
+                        cc()
+                    except Exception:
+                        pass
+
+
+
+def _cross_solo(cls, params, hist, seed):
+    """canonical run of one object, solo, in a pristine process state: list of public observables after every update"""
+    _pristine()
+    d = DRIVERS[cls]
+    rng.seed_step(0, cls, "cross", "init")
+    det = d.make(params)
+    out = []
+    for pos, cell in enumerate(hist):
+        rng.seed_step(seed, cls, "cross", pos)
+        try:
+            d.feed(det, _cross_symbol(cls, cell), params)
+        except Exception as e:
+            raise Violation(
+                "canonical-exception", "%s: the canonical 0/1 update raised %r at step %d of cell history %r (solo, pristine process)" % (cls, e, pos, hist),
+                expected="accepted", observed=repr(e), sig="canonical-exception:%s:%s" % (cls, type(e).__name__))
+        out.append(public(d, det))
+    return out
+
+
+class _CrossObj:
+    def __init__(self, role, cls, enc, params, hist, seed, solo):
+        self.role, self.cls, self.enc, self.params, self.hist, self.seed, self.solo = role, cls, enc, params, hist, seed, solo
+        self.d = DRIVERS[cls]
+        rng.seed_step(0, cls, "cross", "init")
+        self.det = self.d.make(params)
+        self.pos = 0
+
+    def feed(self, other, sched, stats):
+        pos, cls, enc = self.pos, self.cls, self.enc
+        yt, yp = _cross_labels(cls, enc, self.hist[pos], pos)
+        rng.seed_step(self.seed, cls, "cross", pos)
+        where = "object %s (%s fed encoding %s) at step %d of cell history %r, schedule %s, the other object of the process: %s fed encoding %s" % (
+            self.role, cls, enc, pos, self.hist, sched, other[0], other[1])
+        try:
+            self.det.update(y_true=yt, y_pred=yp)
+        except Exception as e:
+            raise Violation(
+                "cross-exception", "%s: update(y_true=%r, y_pred=%r) raised %r although the canonical solo run accepts the pair" % (where, yt, yp, e),
+                expected="accepted", observed=repr(e), sig="cross-exception:%s:%s:%s" % (cls, enc, type(e).__name__))
+        o = public(self.d, self.det)
+        oc = self.solo[pos]
+        bad = sorted(k for k in set(oc) | set(o) if oc.get(k, "<absent>") != o.get(k, "<absent>"))
+        if bad:
+            raise Violation(
+                "cross-twin", "%s: outputs %s differ from the canonical solo run (y_true=%r, y_pred=%r)" % (where, bad, yt, yp),
+                expected={k: _show(oc.get(k)) for k in bad}, observed={k: _show(o.get(k)) for k in bad},
+                sig="cross-twin:%s:%s:%s" % (cls, enc, ",".join(b.replace("attr:", "") for b in bad)))
+        self.pos += 1
+        st = self.det.drift_state
+        if st is not None:
+            stats["cross_%s_in_object_%s" % (st, self.role)] += 1
+            stats["cross_alarm:%s" % cls] += 1
+            if st == "drift":
+                self.drifts = getattr(self, "drifts", 0) + 1
+                if self.drifts == 2:
+                    stats["cross_ge2_drifts_in_object_%s" % self.role] += 1
+        return st
+
+
+def _cross_exec(cfg, campaign, seed, stats, solo_of):
+    """ONE execution: pristine process state, then one pair of fresh objects per history of the campaign."""
+    (cA, eA), (cB, eB), sched = cfg["A"], cfg["B"], cfg["sched"]
+    pA, pB = cfg["paramsA"], cfg["paramsB"]
+    solos = [(solo_of(cA, pA, h), solo_of(cB, pB, h)) for h in campaign]  # before the reset: they reset themselves
+    _pristine()
+    nontrivial = False
+    for h, (sA, sB) in zip(campaign, solos):
+        A = _CrossObj("A", cA, eA, pA, h, seed, sA)
+        if sched == "seq":
+            for _ in h:
+                nontrivial |= A.feed((cB, eB), sched, stats) is not None
+            B = _CrossObj("B", cB, eB, pB, h, seed, sB)
+            for _ in h:
+                nontrivial |= B.feed((cA, eA), sched, stats) is not None
+        else:
+            B = _CrossObj("B", cB, eB, pB, h, seed, sB)
+            for _ in h:
+                nontrivial |= A.feed((cB, eB), sched, stats) is not None
+                nontrivial |= B.feed((cA, eA), sched, stats) is not None
+        stats["transitions"] += 2 * len(h)
+        stats["states"] += 2 * len(h)
+        stats["cross_object_pairs_run"] += 1
+    return nontrivial
+
+
+class Cross(System):
+    """replayable form of one execution of the family cross: the single event is the campaign (list of cell histories)"""
+    name = "Cross"
+
+    def init(self, cfg):
+        return {"done": 0}
+
+    def alphabet(self, cfg, state, pos):
+        return []
+
+    def step(self, cfg, state, ev, pos, ctx):
+        memo = {}
+
+        def solo_of(cls, params, h):
+            k = (cls, tuple(h))
+            if k not in memo:
+                memo[k] = _cross_solo(cls, params, h, ctx.seed)
+            return memo[k]
+
+        _cross_exec(cfg, [list(h) for h in ev], ctx.seed, ctx.stats, solo_of)
+        state["done"] += 1
+        ctx.terminal = True
+        return {"campaign_histories": len(ev)}
+
+
+SYSTEMS["Cross"] = Cross()
+PAIR_EXCLUDE = ("Cross",)
+
+
+def cross_task(task, seed):
+    """every (encoding of A) x (encoding of B) for one ordered pair of classes and one schedule"""
+    import time
+    from collections import Counter
+    from mc.explorer import artefact
+
+    t0 = time.time()
+    tier, cA, cB, sched = task["tier"], task["A"], task["B"], task["sched"]
+    stats = Counter()
+    violations, samples = [], []
+    pA, pB = _cross_params(cA, tier), _cross_params(cB, tier)
+    campaign = _cross_campaign(cA, cB, tier)
+    memo = {}
+    bad_solo = {}
+
+    def solo_of(cls, params, h):
+        k = (cls, tuple(h))
+        if k in bad_solo:
+            raise bad_solo[k]
+        if k not in memo:
+            try:
+                memo[k] = _cross_solo(cls, params, h, seed)
+            except Violation as v:
+                bad_solo[k] = v
+                raise
+        return memo[k]
+
+    reported = set()
+    for eA in _cross_encodings(cA):
+        for eB in _cross_encodings(cB):
+            cfg = {"id": "cross", "mode": "cross", "A": [cA, eA], "B": [cB, eB], "sched": sched, "paramsA": pA, "paramsB": pB}
+            stats["executions"] += 1
+            try:
+                nt = _cross_exec(cfg, campaign, seed, stats, solo_of)
+            except Violation as v:
+                stats["violations_raw"] += 1
+                if v.sig not in reported or len(violations) < 3:
+                    reported.add(v.sig)
+                    violations.append(artefact(PROPERTY, SYSTEMS["Cross"], cfg, seed, [campaign], v))
+                continue
+            if nt:
+                stats["nontrivial_executions"] += 1
+            stats["cross:%s>%s" % (cA, cB)] += 1
+            stats["cross_sched:%s" % sched] += 1
+            stats["cross_encA:%s" % eA] += 1
+            stats["cross_encB:%s" % eB] += 1
+            if cA != cB:
+                stats["cross_different_classes"] += 1
+            if len(samples) < 1:
+                samples.append({"system": "Cross", "cfg": jsonable(cfg), "events": [campaign], "nontrivial_events": int(nt)})
+    return {"stats": dict(stats), "violations": violations, "samples": samples, "wall": time.time() - t0}
+
+
+def _cross_tasks(tier):
+    out = []
+    for cA in CONCEPT:
+        for cB in CONCEPT:
+            for sched in CROSS_SCHED:
+                lfr = (cA == "LinearFourRates") + (cB == "LinearFourRates")
+                out.append({"fn": "cross_task", "system": "Cross", "tier": tier, "A": cA, "B": cB, "sched": sched,
+                            "label": "Cross|%s>%s|%s" % (cA, cB, sched), "cost": 30 * (1 + 3 * lfr)})
+    return out
+
+
+# ----------------------------------------------------------------------------
 # bounds
 # ----------------------------------------------------------------------------
 ENC_DEPTH = {"quick": 10, "thorough": 14}
@@ -881,6 +1163,8 @@ def tasks(tier, seed):
             if thorough and name != "ADWIN":
                 split = 2
             out += _dfs_tasks(name, cfg, n, split, "y|%d" % ci, COST.get(name, 1) * (3 if thorough else 1), alphabet, 211)
+    # -- cross: two objects of (possibly) different classes, each with its own encoding, in one process ---
+    out += _cross_tasks(tier)
     return out
 
 
@@ -909,6 +1193,13 @@ def REQUIRED(tier):
     req += ["alarm:X:%s" % n for n in CONCEPT] + ["drift:X:%s" % n for n in CONCEPT] + ["ge2_drifts:X:%s" % n for n in ERR]
     req += ["drift:y:%s" % n for n in UNUSED_Y + UNUSED_Y_EXTRA]
     req += ["ge2_drifts:y:%s" % n for n in GE2_Y]
+    # family cross (the error-based detectors are deterministic; LinearFourRates alarms depend on the seed: reported only)
+    req += ["cross:%s>%s" % (a, b) for a in CONCEPT for b in CONCEPT] + ["cross_sched:%s" % x for x in CROSS_SCHED]
+    encs = sorted(set(_cross_encodings("DDM") + _cross_encodings("LinearFourRates")))
+    req += ["cross_encA:%s" % e for e in encs] + ["cross_encB:%s" % e for e in encs]
+    req += ["cross_different_classes", "cross_object_pairs_run", "cross_drift_in_object_A", "cross_drift_in_object_B",
+            "cross_ge2_drifts_in_object_A", "cross_ge2_drifts_in_object_B"]
+    req += ["cross_alarm:%s" % n for n in ("DDM", "EDDM", "STEPD")]
     return req
 
 
@@ -924,7 +1215,11 @@ def describe(tier):
         "lfr: every sequence of confusion cells per int-like encoding; X / y: every history over the registry alphabet "
         "(batch detectors: plus set_reference with junk labels; PCACD, KdqTreeStreaming, LinearFourRates additionally: long default history with <= k deviations) with junk in "
         "the unused argument(s). A history is non-trivial when at least one update reported warning or drift "
-        "(or re-encoded a position / set a reference with junk labels)",
+        "(or re-encoded a position / set a reference with junk labels). "
+        "cross: TWO objects in one process — every ordered pair ((class A, encoding of A), (class B, encoding of B)) over the five label-reading "
+        "classes x both schedules (seq: A fed completely, then B built and fed; alt: alternately); one execution starts from a pristine process "
+        "state and runs a fresh pair of objects for every cell history of the campaign (all 4^n histories, then long ones); each object is compared "
+        "after every update with the canonical 0/1 run of its class made solo in a pristine process state",
         "bounds": {
             "enc_depth": ENC_DEPTH[tier],
             "encodings": list(ENC),
@@ -941,6 +1236,17 @@ def describe(tier):
                 "label_kinds_rotating_with_position": {k: [repr(v) for v in vs] for k, vs in KIND_LABELS.items()},
             },
             "mix": {"depth": depth, "k": k, "alternative_encodings": alts, "base_encodings": bases},
+            "cross": {
+                "classes": list(CONCEPT),
+                "encodings_error_based": _cross_encodings("DDM"),
+                "encodings_LinearFourRates": _cross_encodings("LinearFourRates"),
+                "value_preserving_encodings": "v_<type>: both labels of the cell converted to one type (0/1, 0.0/1.0, False/True, '0'/'1', numpy scalars)",
+                "ordered_object_pairs": sum(len(_cross_encodings(c)) for c in CONCEPT) ** 2,
+                "schedules": list(CROSS_SCHED),
+                "campaign_per_execution": "all 4^%d cell histories (lexicographic), then %r (pairs with LinearFourRates: %r)"
+                % (CROSS_DEPTH[tier], CROSS_LONG[tier]["err"], CROSS_LONG[tier]["lfr"]),
+                "parameters": "registry parameter set 0 of each error-based class; LinearFourRates %r" % (CROSS_LFR_PARAMS,),
+            },
             "lfr_depth": LFR_DEPTH[tier],
             "lfr_encodings": list(LFR_ENC),
             "unused_X_depth": X_DEPTH[tier],
@@ -974,6 +1280,9 @@ def describe(tier):
             "the canonical run is the shared driver registry's feed (y_true=1, y_pred in {0,1} as plain ints; X positional/keyword as the driver does)",
             "ADWINAccuracy gets one parameter set in addition to the registry's (delta=1, conservative bound, max_buckets=5) so that several cuts fit into 10-14 samples of 0/1 input",
             "MD3 is included in the unused-y family because its update()/set_reference() document y_true/y_pred as not used",
+            "family cross: the process-level state of menelaus is put back before every execution (mc.procstate.reset() and cache_clear() of every functools cache "
+            "found at module level / on classes of the menelaus modules); within one execution it is carried from one pair of objects to the next (same two kinds); "
+            "the two objects never share a container, and only one parameter set per class is used",
             "per-detector '>= 2 drifts' counters are required only where they are seed-robust (not for KdqTreeBatch, KdqTreeStreaming, LinearFourRates with junk X); all are reported",
         ],
     }
